@@ -989,6 +989,7 @@ type corpusCase struct {
 	cfg    eCfg
 	inputs []string
 	heavy  bool // minutes of vm_compute: thorough tier of C01 only
+	only   string // the one property this case is run under ("" = all)
 }
 
 func st1(s string) []eFres { return []eFres{{Content: s}} }
@@ -1073,6 +1074,13 @@ var engineCorpus = []corpusCase{
 		fn: map[string][]eFres{"big": st1(strings.Repeat("z", 65600))}, cfg: eCfg{FlagCount: 1, Out: 65536}, inputs: []string{"", "1", "0", "2", "0", "3", "0"}, heavy: true},
 	{name: "output-size-above-65536", nodes: [][3]string{{"root", "HALT; INCMP foo 1; INCMP bar 2", "root"}, {"foo", "HALT; INCMP _ 0", strings.Repeat("x", 60)}, {"bar", "LOAD big 0; MAP big; MNEXT nxt 11; MPREV prv 22; HALT; INCMP > 11; INCMP < 22; INCMP _ 0", "b {{.big}}"}, {"_catch", "HALT; INCMP _ *", "catch"}},
 		fn: map[string][]eFres{"big": st1(strings.Repeat("one\ntwo\nthree\n", 8))}, cfg: eCfg{FlagCount: 1, Out: 65536 + 40}, inputs: []string{"", "1", "0", "2", "11", "0"}},
+	// K-C07-utf8: a cache value that is not valid UTF-8 can be saved but not loaded again
+	{name: "non-utf8-echo", nodes: [][3]string{{"root", "HALT; INCMP foo *", "root"}, {"foo", "LOAD aa 0; HALT; INCMP bar *", "foo"}, {"bar", "HALT; INCMP _ *", "bar"}, {"_catch", "HALT; INCMP _ *", "catch"}},
+		fn: map[string][]eFres{"aa": []eFres{{Content: "got:", Echo: true}}}, cfg: eCfg{FlagCount: 1}, inputs: []string{"", "1\xff", "x", "y", "z"}, only: "C07"},
+	{name: "non-utf8-content", nodes: [][3]string{{"root", "HALT; INCMP foo *", "root"}, {"foo", "LOAD aa 0; HALT; INCMP bar *", "foo"}, {"bar", "HALT; INCMP _ *", "bar"}, {"_catch", "HALT; INCMP _ *", "catch"}},
+		fn: map[string][]eFres{"aa": st1("caf\xe9")}, cfg: eCfg{FlagCount: 1}, inputs: []string{"", "1", "x", "y"}, only: "C07"},
+	{name: "utf8-boundaries", nodes: [][3]string{{"root", "HALT; INCMP foo *", "root"}, {"foo", "LOAD aa 0; HALT; INCMP bar *", "foo"}, {"bar", "HALT; INCMP _ *", "bar"}, {"_catch", "HALT; INCMP _ *", "catch"}},
+		fn: map[string][]eFres{"aa": st1("\u00e9\u20ac\U0001F600\ud7ff\ue000\U0010FFFF")}, cfg: eCfg{FlagCount: 1}, inputs: []string{"", "1", "x", "y"}, only: "C07"},
 	{name: "percent-in-menu", nodes: [][3]string{{"root", "MOUT sale 1; MOUT salt 2; MOUT plain 3; MSINK; MNEXT nxt 11; MPREV prv 22; HALT; INCMP > 11; INCMP < 22; INCMP foo *", "root"}, {"foo", "MOUT sale 0; HALT; INCMP _ 0", "foo"}, {"_catch", "HALT; INCMP _ *", "catch"}},
 		menu: []kv{{"sale_menu", "20% sale"}, {"salt_menu", "salt %s and %d"}}, cfg: eCfg{FlagCount: 1, Out: 36}, inputs: []string{"", "11", "22", "x", "0"}},
 	{name: "reload-after-next", nodes: [][3]string{{"root", "LOAD sk 0; MAP sk; LOAD cnt 10; RELOAD cnt; MAP cnt; MNEXT nxt 11; MPREV prv 22; HALT; INCMP > 11; INCMP < 22", "r {{.cnt}} {{.sk}}"}, {"_catch", "MOUT back 0; HALT; INCMP _ 0", "catch"}},
@@ -1318,6 +1326,9 @@ func runEngine(o opts) error {
 		w.CaseType, w.Mism, w.Viol, w.PerShard = "ecase17", "engine_mismatches17", "engine_violations_c06x", 12
 	}
 	for i, cc := range engineCorpus {
+		if cc.only != "" && cc.only != o.prop {
+			continue
+		}
 		if cc.heavy && !(o.prop == "C01" && (o.tier == "thorough" || os.Getenv("VERIF_WIDEN") == "1")) {
 			continue
 		}
@@ -1348,6 +1359,14 @@ func runEngine(o opts) error {
 		r := hx.Rng(o.seed, "engine", i)
 		g := genApp(r)
 		inputs := genHistory(r, g.sels, 3+r.Intn(6))
+		if o.prop == "C07" && i%12 == 5 && len(inputs) > 2 {
+			// a client byte string that is not valid UTF-8 (K-C07-utf8 when a function echoes it into the cache)
+			k := 1 + r.Intn(len(inputs)-1)
+			inputs[k] = append(append([]byte{}, inputs[k]...), [][]byte{{0xff}, {0xc3}, {0xe2, 0x82}, {0xc0, 0xaf}, {0xed, 0xa0, 0x80}, {0xf4, 0x90, 0x80, 0x80}}[r.Intn(6)]...)
+			if len(inputs[k]) > 0 && !((inputs[k][0] >= '0' && inputs[k][0] <= '9') || (inputs[k][0] >= 'a' && inputs[k][0] <= 'z')) {
+				inputs[k] = append([]byte("1"), inputs[k]...)
+			}
+		}
 		c, steps, err := mkCase(i, "generated", g, inputs)
 		if err != nil {
 			return err
